@@ -22,3 +22,33 @@ package replace
 //@ func DeepestRef(sp, opts, ref)
 //@   assumed
 //@   modifies nothing
+
+// safety aspect: the bodies below are verified for absence of panics (C09)
+//@ func getPointerFromKey(sp, key)
+//@   aspect safe
+//@   requires len(key) >= 1
+//@   modifies nothing
+//@ func getParentFromKey(sp, key)
+//@   aspect safe
+//@   requires len(key) >= 1
+//@   modifies nothing
+//@ func UpdateRef(sp, key, ref)
+//@   aspect safe
+//@   requires len(key) >= 1
+//@   modifies heaps DOC
+//@ func UpdateRefWithSchema(sp, key, sch)
+//@   aspect safe
+//@   requires len(key) >= 1 && sp != nil && sch != nil
+//@   modifies heaps DOC
+//@ func RewriteSchemaToRef(sp, key, ref)
+//@   aspect safe
+//@   requires len(key) >= 1 && sp != nil
+//@   modifies heaps DOC
+//@ func rewriteParentRef(sp, key, ref)
+//@   aspect safe
+//@   requires len(key) >= 1 && sp != nil
+//@   modifies heaps DOC
+//@ func DeepestRef(sp, opts, ref)
+//@   aspect safe
+//@   requires sp != nil
+//@   modifies nothing
